@@ -2,11 +2,11 @@
 //! log every call with its arguments and result, then read everything back.
 use crate::gen;
 use crate::out::{catch, emit};
-use jubako as jbk;
 use jbk::creator::{
     CachedContentAdder, CompHint, Compression, ContentAdder, ContentPackCreator, InputFile,
     InputReader, Progress,
 };
+use jubako as jbk;
 use serde::Deserialize;
 use serde_json::json;
 use std::io::{Read, Write};
@@ -226,7 +226,11 @@ enum Adder {
     BasicCached(CachedContentAdder<jbk::creator::BasicCreator>),
 }
 impl Adder {
-    fn add(&mut self, r: Box<dyn InputReader>, h: CompHint) -> std::io::Result<jbk::ContentAddress> {
+    fn add(
+        &mut self,
+        r: Box<dyn InputReader>,
+        h: CompHint,
+    ) -> std::io::Result<jbk::ContentAddress> {
         match self {
             Adder::Pack(c) => c.add_content(r, h),
             Adder::PackCached(c) => ContentAdder::add_content(c, r, h),
@@ -257,11 +261,15 @@ pub fn run(s: &Scn) {
     emit(json!({"ev":"Begin","scn":s.id}));
     std::fs::create_dir_all(&s.dir).unwrap();
     let workers = std::cmp::max(
-        std::thread::available_parallelism().map(|n| n.get()).unwrap_or(8),
+        std::thread::available_parallelism()
+            .map(|n| n.get())
+            .unwrap_or(8),
         2,
     ) - 1;
-    emit(json!({"ev":"New","comp":s.comp,"level":s.level,"creator":s.creator,"cached":s.cached,
-                "concat":s.concat,"workers":workers,"maxQueue":2*workers}));
+    emit(
+        json!({"ev":"New","comp":s.comp,"level":s.level,"creator":s.creator,"cached":s.cached,
+                "concat":s.concat,"workers":workers,"maxQueue":2*workers}),
+    );
     let created = catch(|| create(s));
     let addrs = match created {
         Ok(Ok(a)) => {
@@ -274,7 +282,9 @@ pub fn run(s: &Scn) {
             return;
         }
         Err(p) => {
-            emit(json!({"ev":"Finalize","ok":false,"panic":p,"site":crate::out::last_panic_site()}));
+            emit(
+                json!({"ev":"Finalize","ok":false,"panic":p,"site":crate::out::last_panic_site()}),
+            );
             emit(json!({"ev":"End","scn":s.id}));
             return;
         }
@@ -289,7 +299,9 @@ pub fn run(s: &Scn) {
         match r {
             Ok(Ok(())) => {}
             Ok(Err(e)) => emit(json!({"ev":"ReadError","err":e})),
-            Err(p) => emit(json!({"ev":"ReadPanic","panic":p,"site":crate::out::last_panic_site()})),
+            Err(p) => {
+                emit(json!({"ev":"ReadPanic","panic":p,"site":crate::out::last_panic_site()}))
+            }
         }
     }
     emit(json!({"ev":"End","scn":s.id}));
@@ -340,13 +352,17 @@ fn create(s: &Scn) -> Result<Vec<(u16, u32)>, String> {
                     addrs.push((p, c));
                     continue;
                 }
-                emit(json!({"ev":"Add","i":i,"cid":op.cid,"size":op.size,"cls":op.cls,"hint":op.hint,
-                            "src":op.src,"cached":s.cached,"pack":p,"idx":c}));
+                emit(
+                    json!({"ev":"Add","i":i,"cid":op.cid,"size":op.size,"cls":op.cls,"hint":op.hint,
+                            "src":op.src,"cached":s.cached,"pack":p,"idx":c}),
+                );
                 addrs.push((p, c));
             }
             Err(e) => {
-                emit(json!({"ev":"Add","i":i,"cid":op.cid,"size":op.size,"cls":op.cls,"hint":op.hint,
-                            "src":op.src,"cached":s.cached,"err":e.to_string()}));
+                emit(
+                    json!({"ev":"Add","i":i,"cid":op.cid,"size":op.size,"cls":op.cls,"hint":op.hint,
+                            "src":op.src,"cached":s.cached,"err":e.to_string()}),
+                );
                 return Err(format!("add {i}: {e}"));
             }
         }
@@ -356,7 +372,9 @@ fn create(s: &Scn) -> Result<Vec<(u16, u32)>, String> {
             c.finalize().map_err(|e| format!("finalize: {e}"))?;
         }
         Adder::PackCached(c) => {
-            c.into_inner().finalize().map_err(|e| format!("finalize: {e}"))?;
+            c.into_inner()
+                .finalize()
+                .map_err(|e| format!("finalize: {e}"))?;
         }
         Adder::Basic(c) => finalize_basic(c, s, &addrs)?,
         Adder::BasicCached(c) => finalize_basic(c.into_inner(), s, &addrs)?,
@@ -418,7 +436,9 @@ fn read_back(s: &Scn, addrs: &[(u16, u32)]) -> Result<(), String> {
     let maxidx = addrs.iter().map(|a| a.1).max();
     if s.creator == "pack" {
         use jbk::Pack;
-        let reader: jbk::Reader = jbk::FileSource::open(&path).map_err(|e| e.to_string())?.into();
+        let reader: jbk::Reader = jbk::FileSource::open(&path)
+            .map_err(|e| e.to_string())?
+            .into();
         let pack = jbk::reader::ContentPack::new(reader).map_err(|e| format!("open: {e}"))?;
         emit(json!({"ev":"Open","ok":true}));
         let n = pack.get_content_count().into_u32();
